@@ -27,6 +27,8 @@ def run(C, R):
         E = C.engine(cfg)
         CG = C.cg(cfg)
         R.configs.append(cfg)
+        from common import futures_start_initial as _fsi
+        R.floor('C12.R0f future-construction-paths[%s]' % cfg, _fsi(C, R, cfg, ['channel::oneshot::ChannelState', 'channel::oneshot_broadcast::ChannelState'], 'C12.R0f'), 2)
         from common import constructor_state
         for _st in STATES:
             constructor_state(R, C.engine(cfg), C.facts(cfg), _st, {'value': 'none', 'is_fulfilled': ('const', 0), 'waiters': 'empty-queue'}, 'C12.R0')
